@@ -476,6 +476,39 @@ type tMutualB struct {
 	A tMutualA `xsel:"self::node()"`
 }
 
+// embedded (anonymous) fields: by value and by pointer, exported and not,
+// tagged and untagged, nil and allocated
+type tBaseExp struct {
+	ID string `xsel:"name()"`
+}
+type tbaseUnexp struct {
+	ID string `xsel:"name()"`
+}
+type tEmbPtrUnexp struct {
+	*tbaseUnexp
+	Name string `xsel:"."`
+}
+type tEmbValUnexp struct {
+	tbaseUnexp
+	Name string `xsel:"."`
+}
+type tEmbPtrExp struct {
+	*tBaseExp
+	Name string `xsel:"."`
+}
+type tEmbValExp struct {
+	tBaseExp
+	Name string `xsel:"."`
+}
+type tEmbTagged struct {
+	*tbaseUnexp `xsel:"."`
+	tBaseExp    `xsel:"*"`
+}
+type tEmbIface struct {
+	fmt.Stringer
+	Name string `xsel:"."`
+}
+
 type tComplex struct {
 	C complex128 `xsel:"."`
 	U uintptr    `xsel:"."`
@@ -556,6 +589,14 @@ func targets() []struct {
 			}
 			return &T{}
 		}},
+		{"*embedded nil *unexported", func() any { return &tEmbPtrUnexp{} }},
+		{"*embedded allocated *unexported", func() any { return &tEmbPtrUnexp{tbaseUnexp: &tbaseUnexp{}} }},
+		{"*embedded unexported value", func() any { return &tEmbValUnexp{} }},
+		{"*embedded nil *exported", func() any { return &tEmbPtrExp{} }},
+		{"*embedded exported value", func() any { return &tEmbValExp{} }},
+		{"*embedded fields with tags", func() any { return &tEmbTagged{} }},
+		{"*embedded interface", func() any { return &tEmbIface{} }},
+		{"*[]embedded nil *unexported", func() any { return &[]tEmbPtrUnexp{} }},
 		{"*self-referential struct (.)", func() any { return &tSelfDot{} }},
 		{"*self-referential struct (..)", func() any { return &tSelfParent{} }},
 		{"*self-referential slice", func() any { return &tSelfSlice{} }},
